@@ -9,6 +9,7 @@ REPO = os.environ.get("VERIF_REPO", "/repo")
 SPEC = os.path.join(VERIF, "spec")
 PY = "/venv/bin/python"
 GUARD = "BLACKBIRD_VERIF"
+OUT = os.environ.get("VERIF_OUT", VERIF)       # evidence/ and replays/ go here (redirected when a check is tried on a scratch worktree)
 
 _scratch = None
 
@@ -66,11 +67,12 @@ class TlcResult:
         return [l[len(pre):-2] for l in self.out.splitlines() if l.startswith(pre) and l.endswith(">>")]
 
     def counterexample(self):
-        i = self.out.find("Error: The behavior up to this point is:")
+        out = "\n".join(l for l in self.out.splitlines() if not l.startswith('<<"'))
+        i = out.find("Error: The behavior up to this point is:")
         if i < 0:
             return ""
-        j = self.out.find("states generated", i)
-        return self.out[i:j if j > 0 else None][:20000]
+        j = out.find("states generated", i)
+        return out[i:j if j > 0 else None][:20000]
 
 
 def run_tlc(module, cfg, generated=None, workers=16, env=None, timeout=3600, simulate=None,
@@ -118,7 +120,8 @@ def run_tlc(module, cfg, generated=None, workers=16, env=None, timeout=3600, sim
 def require_ok(res, what):
     """TLC must have finished without error and without a violated invariant (spec-level self check)."""
     if res.error:
-        raise MachineryError("%s: TLC failed: %s\n%s" % (what, res.error, res.out[-3000:]))
+        tail = "\n".join(l[:300] for l in res.out.splitlines() if not l.startswith('<<"'))[-3000:]
+        raise MachineryError("%s: TLC failed: %s\n%s" % (what, res.error, tail))
     return res
 
 
@@ -167,10 +170,11 @@ class Report:
                 print("KNOWN-FINDING: property=%s %s" % (self.pid, ent["what"]))
         paths = []
         import glob
-        for old in glob.glob(os.path.join(VERIF, "replays", "%s_%s_*.json" % (self.pid, self.tier))):
+        for old in glob.glob(os.path.join(OUT, "replays", "%s_%s_*.json" % (self.pid, self.tier))):
             os.remove(old)
         for i, (desc, replay) in enumerate(real[:20]):
-            path = os.path.join(VERIF, "replays", "%s_%s_%d.json" % (self.pid, self.tier, i))
+            os.makedirs(os.path.join(OUT, "replays"), exist_ok=True)
+            path = os.path.join(OUT, "replays", "%s_%s_%d.json" % (self.pid, self.tier, i))
             replay = dict(replay)
             replay["property"] = self.pid
             replay["description"] = desc
@@ -192,8 +196,8 @@ class Report:
             ev["coverage"]["notes"] = self.notes
         if self.known:
             ev["coverage"]["known_findings_hit"] = sorted({k["key"] for k, _ in self.known})
-        os.makedirs(os.path.join(VERIF, "evidence"), exist_ok=True)
-        with open(os.path.join(VERIF, "evidence", self.pid + ".json"), "w") as fh:
+        os.makedirs(os.path.join(OUT, "evidence"), exist_ok=True)
+        with open(os.path.join(OUT, "evidence", self.pid + ".json"), "w") as fh:
             json.dump(ev, fh, indent=1, default=str)
         return 1 if real else 0
 
